@@ -51,4 +51,20 @@ inductive Method where
   | unknown | ocsp | crl | ocspFallbackCrl
 deriving Repr, DecidableEq, Inhabited
 
+abbrev Url := String
+
+structure ServerResult where
+  result : Result
+  server : Url
+  method : Method
+  /-- canonical error class: "" = nil -/
+  err : String
+deriving Repr, DecidableEq, Inhabited
+
+structure CertResult where
+  result : Result
+  servers : List ServerResult
+  method : Method
+deriving Repr, DecidableEq, Inhabited
+
 end NotationCore
